@@ -462,20 +462,37 @@ func conTypes() []*conType {
 		// throughout is visited exactly once, with its value; what is reported about 1 and 2 is left open
 		t.ops = append(t.ops, opSpec{"Traverse", "Traverse()/visits-of-the-untouched-key-3", func(i any) string {
 			n, val := 0, ""
+			seen := map[int]int{}
+			prev, ordered := 0, true
 			i.(B).Traverse(func(it bstree.Item[int, string]) {
 				if it.Key == 3 {
 					n++
 					val = it.Val
 				}
+				seen[it.Key]++
+				if len(seen) > 1 && it.Key <= prev && seen[it.Key] == 1 {
+					ordered = false
+				}
+				prev = it.Key
 			})
-			return fmt.Sprint(n, val)
+			// ... and whatever else it visits, no key twice and the keys in comparator order
+			out := fmt.Sprint(n, val)
+			for k, c := range seen {
+				if c > 1 {
+					out += fmt.Sprintf(" [key %d visited %d times]", k, c)
+				}
+			}
+			if !ordered {
+				out += " [not in key order]"
+			}
+			return out
 		}})
 		t.extra = append(t.extra, opSpec{"Traverse", "Traverse(record)", func(i any) string {
 			var out []string
 			i.(B).Traverse(func(it bstree.Item[int, string]) { out = append(out, fmt.Sprint(it.Key, it.Val)) })
 			return strings.Join(out, ",")
 		}})
-		for _, c := range [][]int{{}, {1}, {2, 1, 3}} {
+		for _, c := range [][]int{{}, {1}, {2, 1, 3}, {1, 2}} { // {1,2}: a root with one child
 			c := c
 			t.inits = append(t.inits, initSpec{fmt.Sprint(c), func() any {
 				b := bstree.New[int, string](lessInt)
